@@ -23,7 +23,7 @@ DEPENDS = {
     "src/container_utils.py": ["C17", "C08", "C13", "C14", "C15"] + LOADER,
     "src/str_utils.py": ["C18", "C13", "C14", "C15"] + LOADER,
     "src/program_utils.py": ["C13", "C14", "C15", "C16", "C20"],
-    "src/program_defs.py": ["C14", "C15", "C01", "C02", "C13", "C16", "C20"],
+    "src/program_defs.py": ["C14", "C15", "C13", "C16", "C20"] + SIM,
     "src/processor_utils/__init__.py": LOADER,
     "src/processor_utils/_checks.py": LOADER,
     "src/processor_utils/_optimization.py": LOADER,
